@@ -358,7 +358,7 @@ func cmdCheck(args []string) int {
 				break
 			}
 			label, _ := wm["@label"].(string)
-			p := writeReplay(filepath.Join(verifDir, ".work", "witness", id), id, hr, wm, "witness:"+label, "", nil)
+			p := writeReplay(filepath.Join(verifDir, ".work", fmt.Sprintf("witness-%d", os.Getpid()), id), id, hr, wm, "witness:"+label, "", nil)
 			jobs = append(jobs, &job{hr: hr, witness: true, file: p})
 		}
 	}
@@ -482,6 +482,9 @@ func cmdCheck(args []string) int {
 	for _, m := range inconcl {
 		fmt.Printf("INCONCLUSIVE property=%s reason=%s\n", id, m)
 	}
+	if !verbose {
+		os.RemoveAll(filepath.Join(verifDir, ".work", fmt.Sprintf("witness-%d", os.Getpid())))
+	}
 	wall := time.Since(start).Seconds()
 	writeEvidence(id, tier, seed, cc, results, violations, inconcl, lines, wall, loadSec)
 	fmt.Printf("%s %s: %d harnesses, %d violations, %d inconclusive items, %.1fs (exit %d)\n", id, tier, len(results), violations, len(inconcl), wall, exit)
@@ -562,8 +565,9 @@ type nativeResult struct {
 // nativeReplay runs the harness functions natively (go test with the
 // harness overlay against /repo's working tree) for the given replay files.
 func nativeReplay(pkg string, files []string, cc *CheckCfg) (map[string]nativeResult, error) {
-	work := filepath.Join(verifDir, ".work", "replay")
+	work := filepath.Join(verifDir, ".work", fmt.Sprintf("replay-%d", os.Getpid()))
 	os.MkdirAll(work, 0o755)
+	defer os.RemoveAll(work)
 	overlay, err := sym.HarnessOverlay(filepath.Join(verifDir, "harness"), repoDir)
 	if err != nil {
 		return nil, err
